@@ -3,3 +3,5 @@ import GristModel.Doc
 import GristModel.Engine
 import GristModel.DocSpec
 import GristModel.Identifiers
+import GristModel.Schedule
+import GristModel.SortedFind
